@@ -737,6 +737,10 @@ func c06Scenarios(thorough bool) []c06Scenario {
 		{T(D(4)), T(R(2))},
 		{T(D(6)), T(D(0)), T(D(7))},
 		{P(S(8)), T(D(6)), T(S(3072))},
+		{P(S(8)), T(R(6)), T(S(3072))},
+		{P(S(8)), T(R(6)), T(S(0))},
+		{T(R(7)), T(S(5))},
+		{P(S(5)), T(R(7)), T(S(3072))},
 		{T(D(7)), T(S(5))},
 		{T(D(6), D(7)), T(S(8), S(5))},
 		{T(D(2)), T(E(0))},
@@ -779,7 +783,7 @@ func c06Scenarios(thorough bool) []c06Scenario {
 	if !thorough {
 		return curated
 	}
-	alphabet := []c06Op{D(0), D(1), D(2), D(3), D(6), D(7), R(3), L(0), L(1), L(2), S(8), S(5), S(0), E(0), E(1), E(2)}
+	alphabet := []c06Op{D(0), D(1), D(2), D(3), D(6), D(7), R(3), R(6), R(7), L(0), L(1), L(2), S(8), S(5), S(0), E(0), E(1), E(2)}
 	isWriter := func(o c06Op) bool { return o.kind == opSetLimit || o.kind == opExtend }
 	// registering the same name twice is outside the statement (extension names are fresh)
 	dupExt := func(ops ...c06Op) bool {
